@@ -136,6 +136,15 @@ func runMap(seed int64, r *rand.Rand, stay int, replay []uint8, useContainer boo
 			total++
 		}
 	}
+	// one run in twelve has a big past (below); its workload keys are present from the start
+	bigPast := r.Intn(12) == 0
+	var preVals []int64
+	if bigPast {
+		for range keys {
+			preVals = append(preVals, nextVal)
+			nextVal++
+		}
+	}
 	mm := container.NewMutexMap()
 	fc := builtInFunctions.NewBuiltInFunctionContainer()
 	stubs := map[int64]*fnStub{}
@@ -156,6 +165,65 @@ func runMap(seed int64, r *rand.Rand, stay int, replay []uint8, useContainer boo
 			mm.Remove(k)
 		}
 	}
+	// one run in twelve has a big past: the map once held a thousand or more entries and was emptied to
+	// a fraction of that (plus a few), so that bookkeeping keyed to the map's peak size or to its
+	// shrinking (rebuilds, compaction) is crossed by the removals of the concurrent phase. The bulk
+	// entries that are left stay for the whole run; the harness takes them out of what Len, Keys and
+	// Values report before the history goes to the model (and checks that they are all there).
+	bulkLeft := 0
+	var pre []porcupine.Operation
+	if bigPast {
+		for i, k := range keys {
+			if useContainer {
+				_ = fc.Add(k, stubs[preVals[i]])
+			} else {
+				mm.Insert(k, preVals[i])
+			}
+			// recorded as the first operations of the history (stamps before every stamp of the run)
+			pre = append(pre, porcupine.Operation{ClientId: ntasks + 1, Input: opIn{Op: "set", Key: k, Val: preVals[i]}, Call: int64(-1000 + 2*i), Output: opOut{}, Return: int64(-1000 + 2*i + 1)})
+		}
+		peak := []int{1024, 1027, 1500, 2048, 2400}[r.Intn(5)] // entries at the peak, workload keys included
+		target := peak/[]int{2, 4, 4, 8, 16}[r.Intn(5)] + 1 + r.Intn(3)
+		bulkLeft = target - len(keys) // so that removals of workload keys take the map across the fraction
+		if bulkLeft < 0 {
+			bulkLeft = 0
+		}
+		nbulk := peak - len(keys)
+		for i := 0; i < nbulk; i++ {
+			k := fmt.Sprintf("bulk%04d", i)
+			if useContainer {
+				_ = fc.Add(k, &fnStub{id: -1})
+			} else {
+				mm.Insert(k, int64(-1))
+			}
+		}
+		for i := bulkLeft; i < nbulk; i++ {
+			k := fmt.Sprintf("bulk%04d", i)
+			if useContainer {
+				fc.Remove(k)
+			} else {
+				mm.Remove(k)
+			}
+		}
+	}
+	// dropBulk removes the bulk entries from a sorted list; a list that does not hold all of them is marked
+	dropBulk := func(l []string, isBulk func(string) bool) []string {
+		out := l[:0:0]
+		n := 0
+		for _, e := range l {
+			if isBulk(e) {
+				n++
+			} else {
+				out = append(out, e)
+			}
+		}
+		if n != bulkLeft {
+			out = append(out, fmt.Sprintf("!%d-of-%d-bulk-entries", n, bulkLeft))
+		}
+		return out
+	}
+	bulkKey := func(e string) bool { return strings.HasPrefix(e, "bulk") }
+	bulkVal := func(e string) bool { return e == "-1" }
 	hist := make([][]porcupine.Operation, ntasks)
 	snapshots := make([][]string, ntasks) // Keys() results kept to detect later mutation (aliasing)
 	tasks := make([]func(), ntasks)
@@ -183,7 +251,7 @@ func runMap(seed int64, r *rand.Rand, stay int, replay []uint8, useContainer boo
 					case "remove":
 						fc.Remove(in.Key)
 					case "len":
-						out.Val = int64(fc.Len())
+						out.Val = int64(fc.Len() - bulkLeft)
 					case "keys":
 						ks := fc.Keys()
 						l := make([]string, 0, len(ks))
@@ -191,7 +259,7 @@ func runMap(seed int64, r *rand.Rand, stay int, replay []uint8, useContainer boo
 							l = append(l, k)
 						}
 						sort.Strings(l)
-						out.List = strings.Join(l, ",")
+						out.List = strings.Join(dropBulk(l, bulkKey), ",")
 					}
 				} else {
 					switch in.Op {
@@ -216,7 +284,7 @@ func runMap(seed int64, r *rand.Rand, stay int, replay []uint8, useContainer boo
 					case "remove":
 						mm.Remove(in.Key)
 					case "len":
-						out.Val = int64(mm.Len())
+						out.Val = int64(mm.Len() - bulkLeft)
 					case "keys":
 						ks := mm.Keys()
 						l := make([]string, 0, len(ks))
@@ -224,7 +292,7 @@ func runMap(seed int64, r *rand.Rand, stay int, replay []uint8, useContainer boo
 							l = append(l, k.(string))
 						}
 						sort.Strings(l)
-						out.List = strings.Join(l, ",")
+						out.List = strings.Join(dropBulk(l, bulkKey), ",")
 						snapshots[t] = append(snapshots[t], out.List)
 					case "values":
 						vs := mm.Values()
@@ -237,7 +305,7 @@ func runMap(seed int64, r *rand.Rand, stay int, replay []uint8, useContainer boo
 							}
 						}
 						sort.Strings(l)
-						out.List = strings.Join(l, ",")
+						out.List = strings.Join(dropBulk(l, bulkVal), ",")
 					}
 				}
 				ret := simrt.Stamp()
@@ -246,7 +314,7 @@ func runMap(seed int64, r *rand.Rand, stay int, replay []uint8, useContainer boo
 		}
 	}
 	res := simrt.Run(uint64(seed), stay, tasks, replay, 2_000_000)
-	var ops []porcupine.Operation
+	ops := append([]porcupine.Operation{}, pre...)
 	for _, h := range hist {
 		ops = append(ops, h...)
 	}
@@ -254,9 +322,9 @@ func runMap(seed int64, r *rand.Rand, stay int, replay []uint8, useContainer boo
 	call := simrt.Stamp()
 	var fin opOut
 	if useContainer {
-		fin.Val = int64(fc.Len())
+		fin.Val = int64(fc.Len() - bulkLeft)
 	} else {
-		fin.Val = int64(mm.Len())
+		fin.Val = int64(mm.Len() - bulkLeft)
 	}
 	ops = append(ops, porcupine.Operation{ClientId: ntasks, Input: opIn{Op: "len"}, Call: call, Output: fin, Return: simrt.Stamp()})
 	kind := "map"
